@@ -588,6 +588,56 @@ pub fn env_paths(ctx: &Ctx) -> Stats {
             ("LC_ALL=de_DE.UTF-8 LANG=tr_TR.UTF-8", abs_in.clone(), sc.path("v5.out"), vec![("LC_ALL", "de_DE.UTF-8"), ("LANG", "tr_TR.UTF-8"), ("LC_NUMERIC", "de_DE.UTF-8")], None),
             ("cwd = / (absolute paths)", abs_in.clone(), sc.path("v6.out"), vec![], Some("/")),
         ];
+        // one visible CPU with the automatic thread count (-t 0 is the default): must still produce the result
+        {
+            let out1 = sc.path("onecpu.out");
+            let r = with_cli_extra(CliExtra { one_cpu: true, ..Default::default() }, || run(st, &abs_in, &out1, &[], None, "one visible CPU, automatic thread count"));
+            match r {
+                None => return,
+                Some(d) => {
+                    if d != reference {
+                        st.violate(
+                            "cli.env_paths.changes_result:one_cpu",
+                            format!("with a single visible CPU the result differs from the baseline ({} vs {} bytes)", d.len(), reference.len()),
+                            Json::obj().set("subcommand", Json::s(base.0.join(" "))).set("variant", Json::s("one visible CPU")).set("records", recs_json(&recs)),
+                        );
+                        return;
+                    }
+                }
+            }
+        }
+        // stdin flavours for `comp oligo -i -`: a pipe, a regular file positioned after a junk prefix, a socket
+        if which <= 1 {
+            let mut with_junk = b"this is not part of the input\n>junk\nTTTTTTTT\n".to_vec();
+            let off = with_junk.len() as u64;
+            with_junk.extend_from_slice(&fasta);
+            let junk_path = sc.write("prefixed.txt", &with_junk);
+            let flavours: Vec<(&str, CliExtra, Option<&[u8]>)> = vec![
+                ("stdin = pipe", CliExtra::default(), Some(&fasta[..])),
+                ("stdin = regular file already positioned after a prefix", CliExtra { stdin_file_at_offset: Some((junk_path.clone(), off)), ..Default::default() }, None),
+                ("stdin = unix socket", CliExtra { stdin_socket: Some(fasta.clone()), ..Default::default() }, None),
+            ];
+            // the batch writer is used for stdin: compare with the same command reading the file
+            for (j, (what, extra, data)) in flavours.into_iter().enumerate() {
+                let o = sc.path(&format!("stdin{}.out", j));
+                let mut a = base.0.clone();
+                a.extend(sv(&["-i", "-", "-o", &o]));
+                let r = with_cli_extra(extra, || run_cli_env(ctx, &a, data, &CliLimits::default(), &[], None));
+                if r.timed_out && !r.cpu_exceeded && !r.stalled {
+                    st.inconclusive(format!("CLI watchdog: {}", r.describe()));
+                    return;
+                }
+                let d = std::fs::read(&o).unwrap_or_default();
+                if !r.ok() || d != reference {
+                    st.violate(
+                        "cli.env_paths.stdin_flavour",
+                        format!("[{}] {} :: output {} bytes vs {} from the file input", what, r.describe(), d.len(), reference.len()),
+                        Json::obj().set("subcommand", Json::s(base.0.join(" "))).set("variant", Json::s(what)).set("records", recs_json(&recs)),
+                    );
+                    return;
+                }
+            }
+        }
         for (what, input, output, env, cwd) in &variants {
             match run(st, input, output, env, *cwd, what) {
                 None => return,
